@@ -277,6 +277,19 @@ pub fn dispatch(f: &[&str]) -> String {
             h.set(cd);
             hex(h.to_string().as_bytes())
         }
+        "body.new" => {
+            use lettre::message::Body;
+            let raw = unhex(f[2]);
+            let b = if f[1] == "1" { match String::from_utf8(raw) { Ok(s) => Body::new(s), Err(_) => return "invalid-utf8".into() } } else { Body::new(raw) };
+            format!("{}\t{}", b.encoding(), hex(b.as_ref()))
+        }
+        "body.with_enc" => {
+            use lettre::message::{header::ContentTransferEncoding as C, Body};
+            let raw = unhex(f[3]);
+            let e = match f[2] { "7bit" => C::SevenBit, "8bit" => C::EightBit, "quoted-printable" => C::QuotedPrintable, "base64" => C::Base64, _ => C::Binary };
+            let r = if f[1] == "1" { match String::from_utf8(raw) { Ok(s) => Body::new_with_encoding(s, e), Err(_) => return "invalid-utf8".into() } } else { Body::new_with_encoding(raw, e) };
+            match r { Ok(b) => format!("ok\t{}\t{}", b.encoding(), hex(b.as_ref())), Err(x) => format!("err\t{}", hex(&x)) }
+        }
         other => format!("UNKNOWN-FN {}", other),
     }
 }
